@@ -126,6 +126,14 @@ CONFIGS = {
         "reduceDelegationShares", "clearDustShares", "clearDustDelegation", "delegate", "undelegate", "redelegate",
         "slashRedelegations", "slashValidator", "beforeValidatorSlashed",
         "msgDelegate", "msgUndelegate", "msgRedelegate", "msgClaim"}),
+ "DV": ("(w.dels, w.vals)", "dvframe",
+       {"setDelegation", "deleteDelegation", "setValInfo", "setValidator", "getAllianceValidator", "addAssetsToRewardPool",
+        "claimValidatorRewards", "claimDelegationRewards", "settleBeforeDeposit", "updateValidatorShares",
+        "upsertDelegationWithNewTokens", "reduceDelegationShares", "resetAssetAndValidators", "clearDustShares",
+        "clearDustDelegation", "delegate", "undelegate", "redelegate", "slashRedelegations", "slashValidator",
+        "beforeValidatorSlashed", "afterValidatorRemoved", "settleAllValidators", "updateAllianceAsset",
+        "rewardWeightChangeHook", "rebalanceBondTokenWeights", "rebalanceHook", "endBlocker",
+        "msgDelegate", "msgUndelegate", "msgRedelegate", "msgClaim", "msgUpdateAlliance"}),
  "Staking": ("(w.staking, w.time, w.height)", "sframe",
              {"setSVal", "stakingDelegate", "stakingUnbond", "rebalanceBondTokenWeights", "rebalanceHook", "endBlocker"}),
  "Redel": ("(w.redels, w.redelQueue, w.redelIndex)", "rframe",
@@ -140,6 +148,7 @@ HEAD = '''/-
 -/
 import AllianceProofs.PresR
 import AllianceProofs.Attr
+import AllianceProofs.Attr2
 set_option linter.unusedVariables false
 namespace Alliance
 namespace Frame%(name)s
